@@ -4,7 +4,7 @@ set -e
 cd "$(dirname "$0")"
 export GOFLAGS=-mod=mod GOPROXY=off GOSUMDB=off GOTOOLCHAIN=local
 mkdir -p work evidence replays
-lib/build_coq.sh
+lib/build_coq.sh || echo "setup: some Coq files failed to build (each property's check re-builds and reports its own)"
 for d in harness/cmd/*/; do
   c=$(basename "$d")
   lib/build_harness.sh "$c" || echo "setup: harness $c failed to build (reported again by its check)"
